@@ -20,8 +20,9 @@ META = {
         'Economics.Calculate / CalculateFinancialPerformance by whole runs over every economic model x end-use x plant cell: each '
         'reported series and metric is recomputed by the Coq model inside the kernel from the run\'s own energy, price and cost data '
         'and compared with 1e-9 relative tolerance; decisions (payback crossing) are taken on the implementation\'s own series. '
-        'Partial: that the reported IRR is a root of the NPV is checked on every run by the Coq npv model (numpy_financial.irr is '
-        'not modelled).'),
+        'A conventional series (non-positive years followed by non-negative years) is proved to have at most one IRR above '
+        '-100 % (C04_irr_unique), so the reported IRR, which is checked on every run to zero the modelled NPV, is then the rate the '
+        'series implies; for other series only the root property is checked (numpy_financial.irr root selection is not modelled).'),
     'level_note': (
         'Trusted: Coq kernel + vm_compute; Python harness (runs GEOPHIRES through main() with the guarded hook, converts floats to '
         'rationals - 15 significant digits for values feeding no decision, exactly for the cumulative series); float rounding of the '
@@ -169,7 +170,10 @@ def run_inputs(ctx, texts):
             if not ok:
                 ctx.violate('property', f'payback-display:{R.econ}:{R.enduse}', f'payback {pb} is displayed as {shown!r}',
                             inp={'input_text': text, 'desc': desc}, observed=shown, expected='N/A iff payback == 0')
-        ctx.count('whole-runs', econ=R.econ, enduse=R.enduse, plant=R.plant, life=R.life, cy=R.cy, addons=R.addons)
+        tot_ = e('TotalRevenue')
+        conventional = all(x <= 0 for x in tot_[:R.cy]) and any(x < 0 for x in tot_[:R.cy]) and all(x >= 0 for x in tot_[R.cy:])
+        ctx.count('whole-runs', econ=R.econ, enduse=R.enduse, plant=R.plant, life=R.life, cy=R.cy, addons=R.addons,
+                  irr_unique_by_C04_irr_unique=conventional and e('ProjectIRR') != 0)
         ctx.sample('whole-runs', desc)
     failing = fw.kernel_bools(ctx, 'cashflow', REQ, terms, shard=120)
     ctx.count('whole-runs', evaluations=len(terms), nontrivial_keys=[tuple(o[3]) + (o[0],) for o in owners if o[3] is not None])
